@@ -28,6 +28,10 @@ struct StepDef {
     op: Op,
 }
 
+/// One representative per mutation kind (update, archive, tombstone,
+/// retract, supersede, merge, schema activation, create under the new schema).
+const CORE: [&str; 8] = ["rename-a", "archive-b", "tombstone-d", "retract", "supersede", "merge-b-into-a", "toggle-schema", "widget"];
+
 fn alphabet() -> Vec<StepDef> {
     let k = |name, text| StepDef { name, op: Op::Kml(text) };
     vec![
@@ -410,6 +414,13 @@ fn main() {
                 })
                 .collect()
         };
+        // Quick tier: depth <= 2 over the whole alphabet; depth 3 over the
+        // histories built from one representative per mutation kind.
+        let jobs: Vec<Vec<usize>> = if run.tier == vcore::Tier::Quick && depth >= 3 {
+            jobs.into_iter().filter(|path| path.iter().all(|s| CORE.contains(&steps[*s].name))).collect()
+        } else {
+            jobs
+        };
         let total = jobs.len();
         let mut done = 0usize;
         let mut next = Vec::new();
@@ -458,7 +469,7 @@ fn main() {
     run.set("alphabet", json!(steps.iter().map(|s| s.name).collect::<Vec<_>>()));
     run.set("comparisons_by_coordinate", json!(by_kind));
     run.rule(
-        "HIST: all histories over the step alphabet from the seeded Space, a history being extended only while every step commits \
+        "HIST: all histories over the step alphabet from the seeded Space (quick: whole alphabet to depth 2, the 8 kind-representatives CORE at depth 3; thorough: whole alphabet at every depth), a history being extended only while every step commits \
          (refused / no_effect steps are executed and replayed after, then pruned); the battery is recorded live after the seed and after \
          every commit, and after the LAST statement of each history every recording is replayed AS OF SEQ (whole battery) and \
          AS OF TX / AS OF TIME (3 whole-kind queries + META); distinct = (history, last outcome); nontrivial = recorded answer was non-empty",
